@@ -93,7 +93,11 @@ Programs ==
      \* 22: Block(Block(Block(Watch(End block), Mark, Mark, Mark), Mark, End block), Mark, End block)   a watch ends the innermost of three
      << P("prog", 0, <<2>>), P("block", 1, <<3, 12, 13>>), P("block", 2, <<4, 10, 11>>), P("block", 3, <<5, 7, 8, 9>>), P("watch", 4, <<6>>),
         P("end", 5, <<>>), P("mark", 4, <<>>), P("mark", 4, <<>>), P("mark", 4, <<>>), P("mark", 3, <<>>), P("end", 3, <<>>),
-        P("mark", 2, <<>>), P("end", 2, <<>>) >> >>
+        P("mark", 2, <<>>), P("end", 2, <<>>) >>,
+     \* 23: Macro A(Mark); Macro B(Call A); Call B; Macro A(Call B); Call B; Mark      a redefinition closes a cycle after B has run once
+     << P("prog", 0, <<2, 4, 6, 7, 9, 10>>), PN("macro", 1, <<3>>, "A"), P("mark", 2, <<>>), PN("macro", 1, <<5>>, "B"),
+        PN("call", 4, <<>>, "A"), PN("call", 1, <<>>, "B"), PN("macro", 1, <<8>>, "A"), PN("call", 7, <<>>, "B"),
+        PN("call", 1, <<>>, "B"), P("mark", 1, <<>>) >> >>
 
 VARIABLES prog,         \* index into Programs
           st,           \* the interpreter state (a record, see Fresh)
